@@ -28,7 +28,7 @@ P == CASE Profile = "c04q" ->
       [] Profile = "c04t" ->
             [slots |-> <<<<"src", "h.h">>, <<"inc", "h.h">>, <<"sys", "h.h">>, <<"inc", "g.h">>, <<"src", "g.h">>>>,
              bodies |-> {"def", "guard", "once", "incq", "inca", "testX"},
-             stmts |-> {"qh", "ah", "qg", "ag", "defX", "mq", "ma", "undefM", "inch"}, maxmain |-> 2, nmains |-> 1,
+             stmts |-> {"qh", "ah", "qg", "ag", "defX", "mq", "ma", "undefM", "undefG", "inch"}, maxmain |-> 3, nmains |-> 1,
              idirs |-> {<<Iu("inc"), Is("sys")>>, <<Iu("inc")>>, <<Is("sys"), Iu("inc")>>, <<Iu("sys"), Iu("inc")>>, <<>>},
              forced |-> {<<>>, <<"g.h">>}, nents |-> 1, plats |-> <<"p1">>]
       [] Profile = "c04h" ->
@@ -36,11 +36,16 @@ P == CASE Profile = "c04q" ->
             [slots |-> <<<<"inc", "h.h">>, <<"inc", "g.h">>, <<"src", "h.h">>>>,
              bodies |-> {"def", "guard"}, stmts |-> {"inch", "mq", "qg"}, maxmain |-> 2, nmains |-> 1,
              idirs |-> {<<Iu("inc")>>}, forced |-> {<<>>}, nents |-> 2, plats |-> <<"p1">>]
+      [] Profile = "c04g" ->
+            \* re-inclusion: guards and #pragma once, with the guard macros undefined between two inclusions
+            [slots |-> <<<<"inc", "h.h">>, <<"src", "h.h">>>>,
+             bodies |-> {"guard", "once", "def"}, stmts |-> {"qh", "undefG", "undefM"}, maxmain |-> 3, nmains |-> 1,
+             idirs |-> {<<Iu("inc")>>}, forced |-> {<<>>}, nents |-> 1, plats |-> <<"p1">>]
       [] Profile = "sim" ->
             [slots |-> <<<<"src", "h.h">>, <<"inc", "h.h">>, <<"sys", "h.h">>, <<"ext", "h.h">>,
                          <<"src", "g.h">>, <<"inc", "g.h">>, <<"ext", "g.h">>>>,
              bodies |-> {"plain", "def", "guard", "once", "testX", "undefX", "defX", "incq", "inca", "gincq", "indX"},
-             stmts |-> {"qh", "ah", "qg", "ag", "defX", "undefX", "testX", "valX", "mq", "ma", "dead", "undefM", "inch", "indX"},
+             stmts |-> {"qh", "ah", "qg", "ag", "defX", "undefX", "testX", "valX", "mq", "ma", "dead", "undefM", "undefG", "inch", "indX"},
              maxmain |-> 4, nmains |-> 2,
              idirs |-> {<<Iu("inc"), Is("sys")>>, <<Iu("inc")>>, <<Is("sys"), Iu("inc")>>, <<Iu("sys"), Iu("inc")>>, <<>>,
                         <<Iu("ext"), Iu("inc")>>, <<Iu("inc"), Iu("ext"), Is("sys")>>, <<Iu("src"), Iu("inc")>>, <<Iu("inc"), Iu("src")>>},
@@ -150,6 +155,8 @@ Stmt(s) ==
     [] s = "indX" -> <<Def("Y", "m:X"), If([t |-> "val", m |-> "Y"]), C, Else, C, Endif, [k |-> "undef", m |-> "Y"]>>
     [] s = "inch" -> <<IfDef("HDR"), [k |-> "includem", m |-> "HDR"], Endif, C>>
     [] s = "undefM" -> <<[k |-> "undef", m |-> "M_inc"], [k |-> "undef", m |-> "M_src"], C>>
+    \* the include guards are ordinary macros: once undefined, a guarded header contributes its body again
+    [] s = "undefG" -> <<[k |-> "undef", m |-> "G_h"], [k |-> "undef", m |-> "G_g"], C>>
 
 \* every main ends by testing which header's macro is visible (so that the choice of header
 \* is observable even when the header itself lies outside the code base)
